@@ -184,6 +184,15 @@ def check_explicit(case, R=None):
         out.append({'key': 'Shuffle:explicit:%s' % sym, 'what': what, 'case': c})
 
     M = len(clauses)
+    _mk_plain = globals()['mk']
+
+    def mk(n_, cl_):
+        F_ = _mk_plain(n_, cl_)
+        if case.get('header') == 'cleared':
+            F_.header.clear()
+        elif case.get('header') == 'no-description':
+            F_.header.pop('description', None)
+        return F_
     if case.get('keywords'):
         # the only keywords are 'fixed' and 'shuffle': any other string (or a
         # value that is neither a string nor a sequence) is an invalid argument
@@ -500,7 +509,97 @@ def _fact(k):
     return r
 
 
+# ------------------------------------------------- formulas with many clauses --
+def big_formula(M):
+    """9 variables, M clauses of width 1..4 (repetitions are legal)"""
+    cls = []
+    for i in range(M):
+        w = 1 + i % 4
+        cls.append([((i * 7 + 3 * t) % 9 + 1) * (1 if (i >> t) & 1 else -1) for t in range(w)])
+        vs = [abs(l) for l in cls[-1]]
+        if len(set(vs)) != len(vs):
+            cls[-1] = [cls[-1][0]]
+    return 9, cls
+
+
+def check_big(case):
+    """More clauses than any writer buffer (10007, 20011): what the tools
+    PRINT is re-read by the strict DIMACS reader.  With every component switched
+    off the clause list is the input's; with the clauses permuted only, the same
+    multiset; always the same number of clauses and of models.  One seeded
+    generator (the outcome space is out of reach at this size)."""
+    import random
+    import contextlib
+    from ref import c06_dimacs_ref as dref
+    import cnfgen.clitools.msg as msgmod
+    n, clauses = big_formula(case['M'])
+    nf, nv, nc = case['switches']
+    flags = (['-p'] if nf else []) + (['-v'] if nv else []) + (['-c'] if nc else [])
+    text = 'p cnf %d %d\n' % (n, len(clauses)) + ''.join(' '.join(map(str, c)) + ' 0\n' for c in clauses)
+    out = []
+
+    def bad(sym, what):
+        out.append({'key': 'Shuffle:big:%s:%s' % (case['entry'], sym), 'what': what, 'case': dict(case)})
+    st = random.getstate()
+    random.seed(case.get('seed', 11))
+    d = tempfile.mkdtemp(prefix='c09_')
+    try:
+        if hasattr(msgmod, '_prefix'):
+            msgmod._prefix = ''
+        buf = io.StringIO()
+        old = sys.stdin
+        try:
+            with contextlib.redirect_stdout(buf), contextlib.redirect_stderr(io.StringIO()):
+                if case['entry'] == 'cnfshuffle':
+                    from cnfgen.clitools.cnfshuffle import cli
+                    sys.stdin = io.StringIO(text)
+                    cli(['cnfshuffle', '-q'] + flags, mode='output')
+                else:
+                    from cnfgen.clitools.cnfgen import cli
+                    path = os.path.join(d, 'big.cnf')
+                    with open(path, 'w') as f:
+                        f.write(text)
+                    cli(['cnfgen', '-q', 'dimacs', path, '-T', 'shuffle'] + flags, mode='output')
+        except (Exception, SystemExit) as e:
+            bad('exception:' + type(e).__name__, repr(e)[:200])
+            return out
+        finally:
+            sys.stdin = old
+    finally:
+        random.setstate(st)
+        import shutil
+        shutil.rmtree(d, ignore_errors=True)
+    P = dref.parse(buf.getvalue())
+    if not P.ok:
+        bad('output-not-dimacs', '%r' % (P.issues[:3],))
+        return out
+    got = [list(c) for c in P.clauses]
+    if P.n != n or len(got) != len(clauses):
+        bad('size', '%d variables / %d clauses printed, the input has %d / %d' % (P.n, len(got), n, len(clauses)))
+        return out
+    if sorted(len(c) for c in got) != sorted(len(c) for c in clauses):
+        bad('widths', 'multiset of clause widths changed')
+    if nf and nv and nc and got != clauses:
+        bad('fixed', 'all components switched off, the clause list printed is not the input')
+    if nf and nv and sorted(map(tuple, got)) != sorted(map(tuple, clauses)):
+        bad('clauses-only', 'only the clause order may change, the multiset of clauses differs')
+    if bin(tt.cnf_models(n, got)).count('1') != bin(tt.cnf_models(n, clauses)).count('1'):
+        bad('models', 'number of models changed')
+    return out
+
+
+def run_big(chunk, R):
+    for case in chunk:
+        vs = check_big(case)
+        R.stats['executions'] += 1
+        R.stats['big_formulas'] += 1
+        R.case(sample=case, nontrivial=True)
+        R.extend(vs)
+
+
 def replay(case):
+    if case.get('part') == 'big':
+        return check_big(case)
     if 'choices' in case:
         if not case['choices'] and 'outcomes' in str(case):
             pass
@@ -552,6 +651,9 @@ def shards(tier, seed):
     ex.append({'n': 2, 'clauses': [[1, -2], [2]], 'keywords': True})
     ex.append({'n': 3, 'clauses': [[1, 2, -3]], 'keywords': True})
     ex.append({'n': 4, 'clauses': [[1, -4], [2, 3], [-1, 2, -3, 4], [4]]})
+    # formulas whose header the caller emptied, or stripped of its description
+    ex.append({'n': 3, 'clauses': [[1, -2], [2, 3]], 'header': 'cleared'})
+    ex.append({'n': 2, 'clauses': [[1, -2], [2]], 'header': 'no-description'})
     # sizes beyond CPython's small-integer cache (256) and two-digit indices
     for big in (12, 300):
         cls = [[(i % big) + 1, -(((i * 7) % big) + 1)] for i in range(big)]
@@ -618,6 +720,11 @@ def shards(tier, seed):
         nf, nv, nc = c['switches']
         return w * (1 if nf else 2 ** c['n']) * (1 if nv else _fact(c['n'])) * \
             (1 if nc else _fact(len(c['clauses'])))
+    bigs = [{'part': 'big', 'entry': e, 'M': M, 'switches': list(sw), 'seed': seed + 11}
+            for e in ('cnfshuffle', 'cnfgen-T') for M in ((10007, 20011) if e == 'cnfshuffle' else (10007,))
+            for sw in ((True, True, True), (True, True, False), (False, False, False))]
+    for i, ch in enumerate(scope.stripe(bigs, 3)):
+        out.append(('big%d' % i, 'run_big', ch))
     rnd.sort(key=lambda c: -weight(c))
     k = 48
     for i in range(k):
